@@ -1,6 +1,1105 @@
-//! C13 — stub (to be implemented).
+//! C13 — a truncated file yields a prefix of the original records (or bytes), then EOF or an error.
+//!
+//! Monitor: every corpus file of the kinds the quantifier lists (BGZF, BAM, raw BAM, BCF, raw BCF, CRAM,
+//! bgzipped and plain SAM / VCF, and the index kinds BAI / CSI / tabix / GZI / FAI / FASTQ-FAI / CRAI) is read
+//! once uncut (transcript `T`) and then once per cut offset `c` (`bytes[..c]`) with the same driver. Small files
+//! are cut at EVERY offset `0..=len`; larger ones at every offset within ±40 bytes of (a capped number of)
+//! structural boundaries plus seeded random offsets. Per cut the monitor requires
+//!
+//! 1. no panic (`guard::catch`; cases run in child processes, so an abort is attributed as well);
+//! 2. the elements before the final END / ERR are a prefix of `T`'s elements (bytes for the BGZF byte stream),
+//!    element-wise equal — with the format-inherent tolerance for text streams (a stream that ends inside a
+//!    line may yield ONE extra element parsed from that partial line; a stream that ends inside the text header
+//!    is only checked for shape);
+//! 3. BAM / BCF record readers: if the stream the record reader receives (what the independent member walker
+//!    inflates from the complete BGZF members before the cut; `bytes[..c]` for the raw kinds) ends inside a
+//!    record, the run ends with ERR; CRAM: if the file ends inside a container that follows the header container
+//!    (the 38-byte EOF container counts), the run ends with ERR;
+//! 4. index readers: ERR, or an index equal to the original (losing only the optional trailing
+//!    unplaced-unmapped count of BAI / CSI / tabix is allowed; text indexes follow the text rule of 2).
+//!
+//! Everything else (clean END at a boundary, ERR anywhere, clean END of the BGZF *byte* stream after a partial
+//! member header) is allowed by the statement and only counted.
+
+use std::{
+    collections::{BTreeMap, BTreeSet},
+    io::{self, BufRead, Read},
+};
+
+use corpus::{CramLayout, Item, Kind, Variant};
+use noodles_bgzf as bgzf;
+use noodles_fasta as fasta;
+use serde_json::{Value, json};
+use vcore::{CaseOut, Ctx, Report, Rng, bgzf as obgzf, guard, rng::fnv1a, run_cases};
+
+// ------------------------------------------------------------------------------------------------
+// drivers
+
+#[derive(Clone, Copy, Debug, PartialEq, Eq, PartialOrd, Ord)]
+enum Drv {
+    /// corpus transcript, `Variant::Primary`
+    Primary,
+    /// corpus transcript, `Variant::Eager`
+    Eager,
+    /// `bgzf::io::Reader` + `read_to_end`
+    BgzfReadToEnd,
+    /// `bgzf::io::Reader` driven with the corpus' mixed `read(n)` / `fill_buf + consume` pattern
+    BgzfPattern,
+    /// `bgzf::io::MultithreadedReader` + `read_to_end`
+    BgzfMt,
+    /// `fasta::fai::io::Reader::read_index`, one element per record of the returned index
+    FaiRecords,
+}
+
+impl Drv {
+    fn name(self) -> &'static str {
+        match self {
+            Drv::Primary => "primary",
+            Drv::Eager => "eager",
+            Drv::BgzfReadToEnd => "read_to_end",
+            Drv::BgzfPattern => "pattern",
+            Drv::BgzfMt => "mt",
+            Drv::FaiRecords => "records",
+        }
+    }
+
+    /// prefix of violation signatures: the kind, plus the reader variant where it is not the primary one
+    fn sig_kind(self, kind: Kind) -> String {
+        match self {
+            Drv::Primary | Drv::BgzfReadToEnd | Drv::FaiRecords => kind.name().to_string(),
+            d => format!("{}+{}", kind.name(), d.name()),
+        }
+    }
+}
+
+fn drivers(kind: Kind) -> Vec<Drv> {
+    match kind {
+        Kind::Bgzf => vec![Drv::BgzfReadToEnd, Drv::BgzfPattern, Drv::BgzfMt],
+        Kind::Fai => vec![Drv::FaiRecords],
+        k if k.variants().contains(&Variant::Eager) => vec![Drv::Primary, Drv::Eager],
+        _ => vec![Drv::Primary],
+    }
+}
+
+const KINDS: &[Kind] = &[
+    Kind::Bgzf,
+    Kind::Bam,
+    Kind::BamRaw,
+    Kind::Bcf,
+    Kind::BcfRaw,
+    Kind::Cram,
+    Kind::Sam,
+    Kind::SamGz,
+    Kind::Vcf,
+    Kind::VcfGz,
+    Kind::Bai,
+    Kind::Csi,
+    Kind::Tbi,
+    Kind::Gzi,
+    Kind::Fai,
+    Kind::FastqFai,
+    Kind::Crai,
+];
+
+/// What one reading of one byte string gave.
+struct Run {
+    /// content elements before the final one (`V:` virtual-position elements removed); empty for byte drivers
+    elems: Vec<String>,
+    /// "END" or "ERR:<ErrorKind>"
+    fin: String,
+    /// byte drivers: everything delivered before the final END / ERR
+    bytes: Option<Vec<u8>>,
+    err_msg: Option<String>,
+}
+
+impl Run {
+    fn ended_cleanly(&self) -> bool {
+        self.fin == "END"
+    }
+}
+
+fn fin_of(r: &io::Result<()>) -> (String, Option<String>) {
+    match r {
+        Ok(()) => ("END".into(), None),
+        Err(e) => (format!("ERR:{:?}", e.kind()), Some(e.to_string())),
+    }
+}
+
+fn bgzf_read_to_end<R: Read>(mut r: R) -> Run {
+    let mut v = Vec::new();
+    // `read_to_end` keeps what was read before an error in `v`
+    let res = r.read_to_end(&mut v).map(|_| ());
+    let (fin, err_msg) = fin_of(&res);
+    Run { elems: vec![], fin, bytes: Some(v), err_msg }
+}
+
+fn bgzf_pattern<R: Read + BufRead>(mut r: R) -> Run {
+    use corpus::{BGZF_READ_PATTERN, BgzfReadOp};
+    let mut out = Vec::new();
+    let mut buf = vec![0u8; 70000];
+    let mut i = 0usize;
+    let res = loop {
+        let op = BGZF_READ_PATTERN[i % BGZF_READ_PATTERN.len()];
+        i += 1;
+        let res: io::Result<usize> = match op {
+            BgzfReadOp::Read(n) => r.read(&mut buf[..n]),
+            BgzfReadOp::FillConsume(n) => match r.fill_buf() {
+                Ok(w) => {
+                    let k = w.len().min(n);
+                    buf[..k].copy_from_slice(&w[..k]);
+                    r.consume(k);
+                    Ok(k)
+                }
+                Err(e) => Err(e),
+            },
+        };
+        match res {
+            Ok(0) => break Ok(()),
+            Ok(n) => out.extend_from_slice(&buf[..n]),
+            Err(e) if e.kind() == io::ErrorKind::Interrupted => {}
+            Err(e) => break Err(e),
+        }
+    };
+    let (fin, err_msg) = fin_of(&res);
+    Run { elems: vec![], fin, bytes: Some(out), err_msg }
+}
+
+fn fai_records(data: &[u8]) -> Run {
+    let mut r = fasta::fai::io::Reader::new(io::BufReader::new(data));
+    match r.read_index() {
+        Ok(index) => {
+            let recs: &[fasta::fai::Record] = index.as_ref();
+            Run { elems: recs.iter().map(|r| format!("I:{r:?}")).collect(), fin: "END".into(), bytes: None, err_msg: None }
+        }
+        Err(e) => Run { elems: vec![], fin: format!("ERR:{:?}", e.kind()), bytes: None, err_msg: Some(e.to_string()) },
+    }
+}
+
+fn run_driver(item: &Item, drv: Drv, data: &[u8]) -> Result<Run, guard::PanicInfo> {
+    guard::catch(|| match drv {
+        Drv::BgzfReadToEnd => bgzf_read_to_end(bgzf::io::Reader::new(data)),
+        Drv::BgzfPattern => bgzf_pattern(bgzf::io::Reader::new(data)),
+        Drv::BgzfMt => bgzf_read_to_end(bgzf::io::MultithreadedReader::new(io::Cursor::new(data.to_vec()))),
+        Drv::FaiRecords => fai_records(data),
+        Drv::Primary | Drv::Eager => {
+            let variant = if drv == Drv::Eager { Variant::Eager } else { Variant::Primary };
+            let mut t = corpus::transcript_read_variant(item.kind, variant, data, &item.side, false, corpus::DEFAULT_CAP);
+            let fin = t.pop().unwrap_or_else(|| "MALFORMED:empty-transcript".into());
+            let err_msg = if fin.starts_with("ERR:") { corpus::last_error_message() } else { None };
+            t.retain(|e| !e.starts_with("V:"));
+            Run { elems: t, fin, bytes: None, err_msg }
+        }
+    })
+}
+
+// ------------------------------------------------------------------------------------------------
+// independent description of a file
+
+#[derive(Clone, Copy, Debug, PartialEq, Eq)]
+enum Class {
+    Bytes,
+    Records,
+    Cram,
+    Text,
+    IndexBin,
+    IndexText,
+    Crai,
+}
+
+fn class_of(kind: Kind) -> Class {
+    match kind {
+        Kind::Bgzf => Class::Bytes,
+        Kind::Bam | Kind::BamRaw | Kind::Bcf | Kind::BcfRaw => Class::Records,
+        Kind::Cram => Class::Cram,
+        Kind::Sam | Kind::SamGz | Kind::Vcf | Kind::VcfGz => Class::Text,
+        Kind::Bai | Kind::Csi | Kind::Tbi | Kind::Gzi => Class::IndexBin,
+        Kind::Fai | Kind::FastqFai => Class::IndexText,
+        Kind::Crai => Class::Crai,
+        k => panic!("kind {k:?} is not part of C13"),
+    }
+}
+
+struct Oracle {
+    kind: Kind,
+    class: Class,
+    len: usize,
+    wrapped: bool,
+    /// BGZF-wrapped kinds: (offset, size, is EOF marker) of every member (independent walker)
+    members: Vec<(usize, usize, bool)>,
+    /// offset in the inflated stream at which member i starts; last entry = total
+    starts: Vec<usize>,
+    /// the stream the format reader sees for the uncut file (inflated payload, the file itself for raw kinds,
+    /// the gunzipped text for CRAI)
+    stream: Vec<u8>,
+    /// Records: `[b0, …, bn]` in stream coordinates
+    rec_bounds: Vec<usize>,
+    cram: Option<CramLayout>,
+    cram_hdr_end: usize,
+    cram_eof_start: Option<usize>,
+    /// text classes: every line start of `stream` plus `stream.len()`, sorted, deduplicated
+    line_bounds: Vec<usize>,
+    /// Text: offset in `stream` of the first non-header line
+    text_header_end: usize,
+    problem: Option<String>,
+}
+
+/// Everything `miniz_oxide` can inflate from a (possibly truncated) raw DEFLATE stream.
+fn inflate_partial(data: &[u8]) -> Vec<u8> {
+    use miniz_oxide::{
+        DataFormat, MZFlush, MZStatus,
+        inflate::stream::{InflateState, inflate},
+    };
+    let mut state = InflateState::new_boxed(DataFormat::Raw);
+    let mut out = Vec::new();
+    let mut buf = vec![0u8; 1 << 15];
+    let mut input = data;
+    loop {
+        let r = inflate(&mut state, input, &mut buf, MZFlush::None);
+        input = &input[r.bytes_consumed..];
+        out.extend_from_slice(&buf[..r.bytes_written]);
+        match r.status {
+            Ok(MZStatus::Ok) if r.bytes_consumed > 0 || r.bytes_written > 0 => {}
+            _ => break,
+        }
+    }
+    out
+}
+
+/// Length of a gzip member header (RFC 1952), `None` if incomplete.
+fn gzip_header_len(b: &[u8]) -> Option<usize> {
+    if b.len() < 10 || b[0] != 0x1f || b[1] != 0x8b {
+        return None;
+    }
+    let flg = b[3];
+    let mut p = 10usize;
+    if flg & 4 != 0 {
+        let x = u16::from_le_bytes([*b.get(p)?, *b.get(p + 1)?]) as usize;
+        p += 2 + x;
+    }
+    for bit in [8u8, 16] {
+        if flg & bit != 0 {
+            p += b.get(p..)?.iter().position(|&c| c == 0)? + 1;
+        }
+    }
+    if flg & 2 != 0 {
+        p += 2;
+    }
+    (p <= b.len()).then_some(p)
+}
+
+fn line_bounds(s: &[u8]) -> Vec<usize> {
+    let mut v = corpus::bounds::line_starts(s);
+    v.push(s.len());
+    v.sort_unstable();
+    v.dedup();
+    v
+}
+
+impl Oracle {
+    fn new(item: &Item) -> Oracle {
+        let kind = item.kind;
+        let class = class_of(kind);
+        let wrapped = kind.is_bgzf_wrapped();
+        let mut o = Oracle {
+            kind,
+            class,
+            len: item.bytes.len(),
+            wrapped,
+            members: vec![],
+            starts: vec![0],
+            stream: vec![],
+            rec_bounds: vec![],
+            cram: None,
+            cram_hdr_end: 0,
+            cram_eof_start: None,
+            line_bounds: vec![],
+            text_header_end: 0,
+            problem: None,
+        };
+        if wrapped {
+            match obgzf::walk(&item.bytes) {
+                Ok(w) => {
+                    o.members = w.members.iter().map(|m| (m.offset as usize, m.size as usize, m.is_eof_marker)).collect();
+                    o.starts = w.starts.iter().map(|&s| s as usize).collect();
+                    o.starts.push(w.total as usize);
+                    o.stream = w.concat();
+                }
+                Err(e) => o.problem = Some(format!("independent walker rejects the uncut file: {e}")),
+            }
+        } else if kind == Kind::Crai {
+            match gzip_header_len(&item.bytes) {
+                Some(h) if item.bytes.len() >= h + 8 => o.stream = inflate_partial(&item.bytes[h..item.bytes.len() - 8]),
+                _ => o.problem = Some("CRAI item is not a complete gzip member".into()),
+            }
+        } else {
+            o.stream = item.bytes.clone();
+        }
+        match class {
+            Class::Records => {
+                let b = match kind {
+                    Kind::Bam | Kind::BamRaw => corpus::bounds::bam_record_offsets(&o.stream),
+                    _ => corpus::bounds::bcf_record_offsets(&o.stream),
+                };
+                match b {
+                    Some(b) if b.last() == Some(&o.stream.len()) => o.rec_bounds = b,
+                    Some(_) => o.problem = Some("record walker: the uncut stream does not end on a record boundary".into()),
+                    None => o.problem = Some("record walker: cannot parse the header of the uncut stream".into()),
+                }
+            }
+            Class::Cram => {
+                let l = corpus::cram_layout(&item.bytes);
+                if l.containers.is_empty() || l.end != item.bytes.len() {
+                    o.problem = Some("container walker: the uncut file does not end on a container boundary".into());
+                } else {
+                    o.cram_hdr_end = l.containers.get(1).copied().unwrap_or(l.end);
+                    // EOF container: 38 bytes, no records, last in the file
+                    let last = *l.containers.last().unwrap();
+                    if l.containers.len() >= 2 && l.end - last == 38 && l.records.last() == Some(&0) {
+                        o.cram_eof_start = Some(last);
+                    }
+                    o.cram = Some(l);
+                }
+            }
+            Class::Text => {
+                o.line_bounds = line_bounds(&o.stream);
+                let marker = if matches!(kind, Kind::Sam | Kind::SamGz) { b'@' } else { b'#' };
+                let mut h = o.stream.len();
+                for &s in &o.line_bounds {
+                    if s < o.stream.len() && o.stream[s] != marker {
+                        h = s;
+                        break;
+                    }
+                }
+                o.text_header_end = h;
+            }
+            Class::IndexText | Class::Crai => o.line_bounds = line_bounds(&o.stream),
+            _ => {}
+        }
+        o
+    }
+
+    /// (number of complete members before the cut, end offset of the last of them)
+    fn members_before(&self, c: usize) -> (usize, usize) {
+        let k = self.members.partition_point(|m| m.0 + m.1 <= c);
+        let p = if k == 0 { 0 } else { self.members[k - 1].0 + self.members[k - 1].1 };
+        (k, p)
+    }
+
+    /// Length of the stream the format reader can receive from `bytes[..c]`.
+    fn stream_len(&self, c: usize, item: &Item) -> usize {
+        if self.wrapped {
+            self.starts[self.members_before(c).0]
+        } else if self.kind == Kind::Crai {
+            match gzip_header_len(&item.bytes) {
+                Some(h) if c > h => inflate_partial(&item.bytes[h..c.min(self.len - 8)]).len(),
+                _ => 0,
+            }
+        } else {
+            c
+        }
+    }
+
+    fn cut_class(&self, c: usize) -> &'static str {
+        if self.wrapped {
+            let (k, p) = self.members_before(c);
+            return if c == p {
+                "at-boundary"
+            } else if self.members.get(k).map(|m| m.2).unwrap_or(false) && k + 1 == self.members.len() {
+                "trailer"
+            } else if c - p < 18 {
+                "inside-bgzf-header"
+            } else {
+                "inside-bgzf-body"
+            };
+        }
+        match self.kind {
+            Kind::BamRaw | Kind::BcfRaw => {
+                if c < self.rec_bounds.first().copied().unwrap_or(0) {
+                    "header"
+                } else if self.rec_bounds.binary_search(&c).is_ok() {
+                    "at-boundary"
+                } else {
+                    "body"
+                }
+            }
+            Kind::Cram => {
+                let Some(l) = &self.cram else { return "body" };
+                if c < self.cram_hdr_end {
+                    "header"
+                } else if c == l.end || l.containers[1..].binary_search(&c).is_ok() {
+                    "at-boundary"
+                } else if self.cram_eof_start.map(|e| c > e).unwrap_or(false) {
+                    "trailer"
+                } else {
+                    "body"
+                }
+            }
+            Kind::Sam | Kind::Vcf => {
+                if c < self.text_header_end {
+                    "header"
+                } else if self.line_bounds.binary_search(&c).is_ok() {
+                    "at-boundary"
+                } else {
+                    "body"
+                }
+            }
+            Kind::Fai | Kind::FastqFai => {
+                if self.line_bounds.binary_search(&c).is_ok() { "at-boundary" } else { "body" }
+            }
+            Kind::Bai => {
+                if c == self.len {
+                    "at-boundary"
+                } else if c < 8 {
+                    "header"
+                } else if c + 8 >= self.len {
+                    "trailer"
+                } else {
+                    "body"
+                }
+            }
+            Kind::Gzi => {
+                if c < 8 {
+                    "header"
+                } else if (c - 8) % 16 == 0 {
+                    "at-boundary"
+                } else {
+                    "body"
+                }
+            }
+            Kind::Crai => {
+                if c == self.len {
+                    "at-boundary"
+                } else if c < 10 {
+                    "header"
+                } else if c + 8 >= self.len {
+                    "trailer"
+                } else {
+                    "body"
+                }
+            }
+            _ => "body",
+        }
+    }
+}
+
+// ------------------------------------------------------------------------------------------------
+// judgement of one run
+
+#[derive(Default)]
+struct Verdict {
+    /// (diagnosis, description)
+    violations: Vec<(String, String)>,
+    /// counters to bump
+    notes: Vec<String>,
+    /// class of the position at which the received stream ends
+    stream_end: &'static str,
+}
+
+fn clip(s: &str) -> String {
+    let s = s.replace('\u{1f}', "␟");
+    if s.chars().count() > 260 { format!("{}…[{} chars]", s.chars().take(260).collect::<String>(), s.chars().count()) } else { s }
+}
+
+fn tail_hex(b: &[u8], n: usize) -> String {
+    let from = b.len().saturating_sub(n);
+    vcore::report::hex(&b[from..])
+}
+
+/// `got[..n]` must equal `want[..n]`; returns the description of the first difference.
+fn prefix_diff(got: &[String], want: &[String], n: usize) -> Option<String> {
+    for i in 0..n {
+        match (got.get(i), want.get(i)) {
+            (Some(g), Some(w)) if g == w => {}
+            (Some(g), Some(w)) => return Some(format!("element #{i} differs from the uncut file's element #{i}: got `{}`, original `{}`", clip(g), clip(w))),
+            (Some(g), None) => return Some(format!("element #{i} `{}` has no counterpart: the uncut file yields only {} elements", clip(g), want.len())),
+            (None, _) => return None,
+        }
+    }
+    None
+}
+
+const COUNT_RE: &str = "unplaced_unmapped_record_count: Some(";
+
+/// `I:` element with the optional trailing unplaced-unmapped count removed.
+fn without_unplaced_count(s: &str) -> Option<String> {
+    let i = s.find(COUNT_RE)?;
+    let rest = &s[i + COUNT_RE.len()..];
+    let j = rest.find(')')?;
+    if !rest[..j].bytes().all(|b| b.is_ascii_digit()) {
+        return None;
+    }
+    Some(format!("{}unplaced_unmapped_record_count: None{}", &s[..i], &rest[j + 1..]))
+}
+
+fn judge(o: &Oracle, item: &Item, t: &Run, run: &Run, c: usize) -> Verdict {
+    let mut v = Verdict { stream_end: "-", ..Default::default() };
+    let sl = o.stream_len(c, item);
+    if !(run.fin == "END" || run.fin.starts_with("ERR:")) {
+        v.violations.push(("fabricated-element".into(), format!("the transcript does not end with END or ERR but with `{}`", clip(&run.fin))));
+        return v;
+    }
+    match o.class {
+        Class::Bytes => {
+            let got = run.bytes.as_deref().unwrap_or(&[]);
+            let want = &o.stream;
+            if got.len() > want.len() || got != &want[..got.len()] {
+                let at = got.iter().zip(want.iter()).position(|(a, b)| a != b).unwrap_or(got.len().min(want.len()));
+                v.violations.push((
+                    "fabricated-element".into(),
+                    format!(
+                        "the reader delivered {} bytes that are not a prefix of the {} original bytes (first difference at {at}; the complete members before the cut hold {sl} bytes); then {}",
+                        got.len(),
+                        want.len(),
+                        run.fin
+                    ),
+                ));
+            } else if got.len() == sl {
+                v.notes.push("bytes_delivered[all-complete-members]".into());
+            } else if got.len() < sl {
+                v.notes.push("bytes_delivered[fewer-than-complete-members]".into());
+            } else {
+                // more than the complete members hold: only possible from a partial member, i.e. unverified data
+                v.violations.push((
+                    "fabricated-element".into(),
+                    format!("the reader delivered {} bytes although the complete members before the cut hold only {sl} (bytes from an incomplete, unverifiable member)", got.len()),
+                ));
+            }
+            v.stream_end = if sl == want.len() { "whole-stream" } else { "partial-stream" };
+        }
+        Class::Records => {
+            if let Some(d) = prefix_diff(&run.elems, &t.elems, run.elems.len()) {
+                v.violations.push(("fabricated-element".into(), format!("{d}; then {}", run.fin)));
+            }
+            let b0 = o.rec_bounds[0];
+            if sl < b0 {
+                v.stream_end = "inside-header";
+                if run.ended_cleanly() {
+                    v.notes.push("observed[clean-END-with-incomplete-header]".into());
+                }
+            } else if o.rec_bounds.binary_search(&sl).is_ok() {
+                v.stream_end = "at-record-boundary";
+                let complete = o.rec_bounds.binary_search(&sl).unwrap();
+                let got = run.elems.iter().filter(|e| e.starts_with("R:")).count();
+                if run.ended_cleanly() && got < complete {
+                    v.notes.push("observed[clean-END-before-all-complete-records]".into());
+                }
+            } else {
+                v.stream_end = "inside-record";
+                if run.ended_cleanly() {
+                    let i = o.rec_bounds.partition_point(|&b| b <= sl);
+                    let (rs, re) = (o.rec_bounds[i - 1], o.rec_bounds[i]);
+                    v.violations.push((
+                        "clean-eof-inside-record".into(),
+                        format!(
+                            "the stream the record reader receives is {sl} bytes long and ends {} bytes into record #{} (bytes {rs}..{re} of the stream), yet the reader reports a clean end of file after {} record(s); last 24 stream bytes: {}",
+                            sl - rs,
+                            i - 1,
+                            run.elems.iter().filter(|e| e.starts_with("R:")).count(),
+                            tail_hex(&o.stream[..sl], 24)
+                        ),
+                    ));
+                }
+            }
+        }
+        Class::Cram => {
+            if let Some(d) = prefix_diff(&run.elems, &t.elems, run.elems.len()) {
+                v.violations.push(("fabricated-element".into(), format!("{d}; then {}", run.fin)));
+            }
+            let l = o.cram.as_ref().unwrap();
+            if c < o.cram_hdr_end {
+                v.stream_end = "inside-header-container";
+                if run.ended_cleanly() {
+                    v.notes.push("observed[clean-END-inside-header-container]".into());
+                }
+            } else if c == l.end || l.containers[1..].binary_search(&c).is_ok() {
+                v.stream_end = "at-container-boundary";
+            } else {
+                v.stream_end = "inside-container";
+                if run.ended_cleanly() {
+                    let i = l.containers.partition_point(|&b| b <= c) - 1;
+                    let end = l.containers.get(i + 1).copied().unwrap_or(l.end);
+                    v.violations.push((
+                        "clean-eof-inside-container".into(),
+                        format!(
+                            "the file ends {} bytes into container #{i} (bytes {}..{end}, {} records{}), yet the reader reports a clean end of file",
+                            c - l.containers[i],
+                            l.containers[i],
+                            l.records[i],
+                            if Some(l.containers[i]) == o.cram_eof_start { ", the EOF container" } else { "" }
+                        ),
+                    ));
+                }
+            }
+        }
+        Class::Text | Class::IndexText | Class::Crai => {
+            let hdr_elems = if o.class == Class::Text { 1 } else { 0 };
+            if o.class == Class::Text && sl < o.text_header_end {
+                // the text header itself is cut: any prefix of header lines is a valid header
+                v.stream_end = "inside-header";
+                v.notes.push("tolerated[text-header-cut-not-compared]".into());
+                if run.elems.len() > 1 || run.elems.first().map(|e| !e.starts_with("H:")).unwrap_or(false) {
+                    v.violations.push((
+                        "fabricated-element".into(),
+                        format!("the stream ends inside the header ({sl} of {} header bytes) but the reader yields {} element(s), first `{}`", o.text_header_end, run.elems.len(), clip(&run.elems[0])),
+                    ));
+                }
+                return v;
+            }
+            // complete lines in the received stream
+            let i = o.line_bounds.partition_point(|&b| b <= sl);
+            let complete_end = o.line_bounds[i - 1];
+            let partial = sl > complete_end;
+            let first_record_line = o.line_bounds.partition_point(|&b| b < o.text_header_end);
+            let k = (i - 1).saturating_sub(first_record_line);
+            v.stream_end = if partial { "inside-line" } else { "at-line-boundary" };
+            let fixed = hdr_elems + k;
+            if let Some(d) = prefix_diff(&run.elems, &t.elems, run.elems.len().min(fixed)) {
+                v.violations.push(("fabricated-element".into(), format!("{d}; then {} (the received stream holds {k} complete record line(s))", run.fin)));
+            } else if run.elems.len() > fixed + partial as usize {
+                v.violations.push((
+                    "fabricated-element".into(),
+                    format!(
+                        "{} element(s) from a stream of {sl} bytes that holds {k} complete record line(s){}: extra element `{}`",
+                        run.elems.len(),
+                        if partial { " and one partial line" } else { "" },
+                        clip(&run.elems[fixed + partial as usize])
+                    ),
+                ));
+            } else if run.elems.len() == fixed + 1 {
+                let e = &run.elems[fixed];
+                if t.elems.get(fixed) == Some(e) {
+                    v.notes.push("tolerated[partial-line-parsed-equal-to-original]".into());
+                } else if e.starts_with("R:") || e.starts_with("I:") {
+                    v.notes.push("tolerated[partial-line-parsed-as-record]".into());
+                } else {
+                    v.violations.push(("fabricated-element".into(), format!("element parsed from the partial last line is not a record: `{}`", clip(e))));
+                }
+            }
+            if o.class == Class::Crai && run.ended_cleanly() && run.elems != t.elems {
+                v.violations.push((
+                    "index-silently-different".into(),
+                    format!("read to a clean end with {} of {} records although the gzip member is incomplete", run.elems.len(), t.elems.len()),
+                ));
+            }
+        }
+        Class::IndexBin => {
+            v.stream_end = if sl == o.stream.len() { "whole-stream" } else { "partial-stream" };
+            if run.ended_cleanly() {
+                let want = t.elems.first().cloned().unwrap_or_default();
+                let got = run.elems.first().cloned().unwrap_or_default();
+                if run.elems.len() != 1 {
+                    v.violations.push(("fabricated-element".into(), format!("{} elements from an index reader", run.elems.len())));
+                } else if got == want {
+                    if c < o.len {
+                        v.notes.push("observed[index-equal-from-cut-file]".into());
+                    }
+                } else if sl + 8 >= o.stream.len() && without_unplaced_count(&want).as_deref() == Some(&got) {
+                    v.notes.push("tolerated[optional-unplaced-unmapped-count-lost]".into());
+                } else {
+                    let at = got.bytes().zip(want.bytes()).position(|(a, b)| a != b).unwrap_or(got.len().min(want.len()));
+                    v.violations.push((
+                        "index-silently-different".into(),
+                        format!(
+                            "read_index returned Ok from {sl} of {} stream bytes with an index that differs from the original (Debug text differs at char {at}: got `…{}`, original `…{}`)",
+                            o.stream.len(),
+                            clip(&got[at.saturating_sub(40)..]),
+                            clip(&want[at.saturating_sub(40)..])
+                        ),
+                    ));
+                }
+            } else if !run.elems.is_empty() {
+                v.violations.push(("fabricated-element".into(), "an index element followed by ERR".into()));
+            }
+        }
+    }
+    v
+}
+
+// ------------------------------------------------------------------------------------------------
+// files, cuts, cases
+
+struct FileEntry {
+    item: Item,
+    seed: u64,
+    cuts: Vec<usize>,
+    exhaustive: bool,
+}
+
+#[derive(Clone, Debug)]
+struct Case {
+    file: usize,
+    drv: Drv,
+    /// range of indices into the file's cut list
+    lo: usize,
+    hi: usize,
+}
+
+struct Plan {
+    exhaustive_limit: usize,
+    near: usize,
+    max_boundaries: usize,
+    random: usize,
+    scale: u8,
+    seeds: Vec<u64>,
+}
+
+fn plan(ctx: &Ctx) -> Plan {
+    let reduced = ctx.param("reduced").is_some();
+    let tiny = ctx.param("tiny").is_some();
+    let n_seeds = if reduced || tiny { 1 } else { ctx.budget("seeds", 1, 5) };
+    let mut seeds = vec![ctx.seed];
+    for i in 1..n_seeds {
+        seeds.push(fnv1a(format!("c13-corpus-seed|{}|{i}", ctx.seed).as_bytes()) >> 1);
+    }
+    Plan {
+        exhaustive_limit: if reduced { 700 } else { ctx.budget("exhaustive", 14000, 20000) as usize },
+        near: 40,
+        max_boundaries: if reduced { 8 } else { ctx.budget("boundaries", 14, 40) as usize },
+        random: if reduced { 60 } else { ctx.budget("random", 300, 2000) as usize },
+        scale: if tiny { 0 } else if reduced { 1 } else { ctx.budget("scale", 1, 2) as u8 },
+        seeds,
+    }
+}
+
+fn cuts_for(item: &Item, seed: u64, p: &Plan) -> (Vec<usize>, bool) {
+    let len = item.bytes.len();
+    if len <= p.exhaustive_limit {
+        return ((0..=len).collect(), true);
+    }
+    let mut set = BTreeSet::new();
+    let mut rng = Rng::new(seed, 0xC13, fnv1a(item.name.as_bytes()));
+    let mut b = corpus::boundaries(item);
+    if b.len() > p.max_boundaries {
+        // keep the first and last few, sample the rest
+        let keep = (p.max_boundaries / 3).max(2);
+        let mut mid: Vec<usize> = b[keep..b.len() - keep].to_vec();
+        rng.shuffle(&mut mid);
+        mid.truncate(p.max_boundaries.saturating_sub(2 * keep));
+        let mut nb: Vec<usize> = b[..keep].to_vec();
+        nb.extend_from_slice(&b[b.len() - keep..]);
+        nb.extend(mid);
+        b = nb;
+    }
+    for x in b {
+        for c in x.saturating_sub(p.near)..=(x + p.near).min(len) {
+            set.insert(c);
+        }
+    }
+    for c in 0..=p.near.min(len) {
+        set.insert(c);
+        set.insert(len - c);
+    }
+    for _ in 0..p.random {
+        set.insert(rng.urange(0, len));
+    }
+    (set.into_iter().collect(), false)
+}
+
+fn build_files(ctx: &Ctx) -> Vec<FileEntry> {
+    let p = plan(ctx);
+    let tmp = ctx.work.join(format!("corpus-{}", std::process::id()));
+    let _ = std::fs::create_dir_all(&tmp);
+    let mut seen = BTreeSet::new();
+    let mut files = Vec::new();
+    let only = ctx.param("only");
+    for &seed in &p.seeds {
+        for item in corpus::items_with_tmp(seed, p.scale, &tmp) {
+            if !KINDS.contains(&item.kind) {
+                continue;
+            }
+            if let Some(f) = only {
+                if !item.name.contains(f) {
+                    continue;
+                }
+            }
+            // the same bytes under the same name (CRAM fixtures, empty files) are cut once
+            if !seen.insert((item.name.clone(), fnv1a(&item.bytes))) {
+                continue;
+            }
+            let (cuts, exhaustive) = cuts_for(&item, seed, &p);
+            files.push(FileEntry { item, seed, cuts, exhaustive });
+        }
+    }
+    let _ = std::fs::remove_dir_all(&tmp);
+    files
+}
+
+/// Rough relative cost of reading a prefix of `c` bytes of a file of this kind (calibrated by measurement).
+fn cost(kind: Kind, drv: Drv, c: usize) -> f64 {
+    let per_byte = match (kind, drv) {
+        (Kind::Bgzf, Drv::BgzfMt) => 0.05,
+        (Kind::Bgzf, _) => 0.03,
+        (Kind::Cram, _) => 2.0,
+        (Kind::Bam | Kind::Bcf | Kind::SamGz | Kind::VcfGz, _) => 2.0,
+        (Kind::Csi | Kind::Tbi, _) => 3.0,
+        _ => 1.0,
+    };
+    let fixed = if drv == Drv::BgzfMt { 60000.0 } else { 1500.0 };
+    fixed + per_byte * c as f64
+}
+
+fn gen_cases(ctx: &Ctx, files: &[FileEntry]) -> Vec<Case> {
+    let chunk_budget = ctx.budget("chunk", 4_000_000, 12_000_000) as f64;
+    let mut cases = Vec::new();
+    for (fi, f) in files.iter().enumerate() {
+        for drv in drivers(f.item.kind) {
+            let mut lo = 0usize;
+            let mut acc = 0.0;
+            for (i, &c) in f.cuts.iter().enumerate() {
+                acc += cost(f.item.kind, drv, c);
+                if acc >= chunk_budget || i + 1 == f.cuts.len() {
+                    cases.push(Case { file: fi, drv, lo, hi: i + 1 });
+                    lo = i + 1;
+                    acc = 0.0;
+                }
+            }
+        }
+    }
+    // static round-robin sharding: spread cheap and expensive cases evenly over the shards
+    Rng::new(ctx.seed, 0xC13C, 0).shuffle(&mut cases);
+    cases
+}
+
+fn case_json(files: &[FileEntry], c: &Case) -> Value {
+    let f = &files[c.file];
+    json!({"item": f.item.name, "corpus_seed": f.seed, "len": f.item.bytes.len(), "driver": c.drv.name(),
+           "first_cut": f.cuts.get(c.lo), "last_cut": f.cuts.get(c.hi.saturating_sub(1)), "cuts": c.hi - c.lo,
+           "file_exhaustive": f.exhaustive})
+}
+
+/// The multithreaded reader is only driven near member boundaries and on a thinned-out grid elsewhere.
+fn mt_wanted(o: &Oracle, c: usize) -> bool {
+    let (k, p) = o.members_before(c);
+    let next_end = o.members.get(k).map(|m| m.0 + m.1).unwrap_or(o.len);
+    c - p <= 24 || next_end.saturating_sub(c) <= 12 || c % 37 == 0
+}
+
+fn run_case(ctx: &Ctx, files: &[FileEntry], case: &Case) -> CaseOut {
+    let mut out = CaseOut::new();
+    out.evaluations = 0;
+    let f = &files[case.file];
+    let item = &f.item;
+    let kind = item.kind;
+    let chk = ctx.stage == "chk";
+    let t0 = guard::thread_cpu_s();
+    let o = Oracle::new(item);
+    if let Some(p) = &o.problem {
+        out.inconclusive.push(format!("{}: {p}", item.name));
+        return out;
+    }
+    let sk = case.drv.sig_kind(kind);
+    // transcript of the uncut file
+    let t = match run_driver(item, case.drv, &item.bytes) {
+        Ok(t) => t,
+        Err(p) => {
+            out.inconclusive.push(format!("{}: the {} driver panics on the UNCUT file ({}); not a truncation finding", item.name, case.drv.name(), p.sig));
+            return out;
+        }
+    };
+    if !t.ended_cleanly() {
+        out.inconclusive.push(format!(
+            "{}: the {} driver does not read the UNCUT file to END ({}: {}); not a truncation finding",
+            item.name,
+            case.drv.name(),
+            t.fin,
+            t.err_msg.clone().unwrap_or_default()
+        ));
+        return out;
+    }
+    if let Some(b) = &t.bytes {
+        if *b != o.stream {
+            out.inconclusive.push(format!("{}: the uncut file does not read back to the independent walker's payload (C01's business)", item.name));
+            return out;
+        }
+    }
+    let mut fps = BTreeSet::new();
+    let mut counters: BTreeMap<String, u64> = BTreeMap::new();
+    let mut bump = |k: String| *counters.entry(k).or_insert(0) += 1;
+    let mut reported = BTreeSet::new();
+    for &c in &f.cuts[case.lo..case.hi] {
+        if case.drv == Drv::BgzfMt && !mt_wanted(&o, c) {
+            continue;
+        }
+        let cc = o.cut_class(c);
+        out.evaluations += 1;
+        bump(format!("runs[{}/{}]", kind.name(), case.drv.name()));
+        if case.drv == drivers(kind)[0] {
+            bump(format!("cuts[{}]", kind.name()));
+            bump(format!("cuts_by_class[{cc}]"));
+            bump("cuts".into());
+        }
+        let run = match run_driver(item, case.drv, &item.bytes[..c]) {
+            Ok(r) => r,
+            Err(p) => {
+                let sig = format!("{sk}:panic:{cc}:{}{}", p.sig, if chk { " profile=chk" } else { "" });
+                if reported.insert(sig.clone()) {
+                    out.violation_with(
+                        sig,
+                        format!("{} cut at {c} of {} ({cc}): the {} reader panics: {} at {}:{}", item.name, o.len, case.drv.name(), p.message, p.file, p.line),
+                        json!({"item": item.name, "corpus_seed": f.seed, "cut": c, "driver": case.drv.name()}),
+                    );
+                }
+                bump(format!("outcome[{cc}][PANIC]"));
+                continue;
+            }
+        };
+        let v = judge(&o, item, &t, &run, c);
+        let fin_class = if run.ended_cleanly() { "END" } else { "ERR" };
+        bump(format!("outcome[{cc}][{fin_class}]"));
+        bump(format!("stream_end[{}][{}][{fin_class}]", class_name(o.class), v.stream_end));
+        if !run.ended_cleanly() {
+            bump(format!("error_kind[{}]", &run.fin[4..]));
+        }
+        for n in v.notes {
+            bump(n);
+        }
+        fps.insert(fnv1a(format!("{}|{}|{cc}|{}|{}", kind.name(), case.drv.name(), v.stream_end, run.fin).as_bytes()));
+        for (diag, desc) in v.violations {
+            let sig = format!("{sk}:{diag}:{cc}");
+            bump(format!("violating_runs[{sig}]"));
+            if reported.insert(sig.clone()) {
+                out.violation_with(
+                    sig,
+                    format!(
+                        "{} (corpus seed {}) cut at {c} of {} bytes ({cc}; the format reader can receive {} of {} stream bytes), {} reader, final element {}{}: {desc}",
+                        item.name,
+                        f.seed,
+                        o.len,
+                        o.stream_len(c, item),
+                        o.stream.len(),
+                        case.drv.name(),
+                        run.fin,
+                        run.err_msg.as_ref().map(|m| format!(" ({m})")).unwrap_or_default(),
+                    ),
+                    json!({"item": item.name, "corpus_seed": f.seed, "cut": c, "driver": case.drv.name(),
+                           "elements_before_final": run.elems.len(), "uncut_elements": t.elems.len(),
+                           "file_tail_hex": tail_hex(&item.bytes[..c], 48)}),
+                );
+            }
+        }
+    }
+    out.fps = fps.into_iter().collect();
+    for (k, n) in counters {
+        out.count(&k, n);
+    }
+    out.max("max_case_cpu_ms", ((guard::thread_cpu_s() - t0) * 1000.0) as u64);
+    if case.lo == 0 {
+        out.sample = Some(case_json(files, case));
+    }
+    out
+}
+
+fn class_name(c: Class) -> &'static str {
+    match c {
+        Class::Bytes => "bgzf-bytes",
+        Class::Records => "bam/bcf",
+        Class::Cram => "cram",
+        Class::Text => "sam/vcf-text",
+        Class::IndexBin => "binary-index",
+        Class::IndexText => "text-index",
+        Class::Crai => "crai",
+    }
+}
 
 fn main() {
-    eprintln!("c13: not implemented");
-    std::process::exit(2);
+    let ctx = Ctx::from_args();
+    let ctx = vcore::cases::replay_request(&ctx).map(|r| r.1).unwrap_or(ctx);
+    // the multithreaded BGZF reader inflates on the global rayon pool: keep it small (16 children run at once)
+    let _ = rayon::ThreadPoolBuilder::new().num_threads(2).build_global();
+    let mut rep = Report::new(
+        "case = (corpus file, reader driver, chunk of cut offsets); one evaluation = one reading of bytes[..c] with one driver, \
+         judged against the same driver's transcript of the uncut file and against independent walkers (BGZF members, BAM/BCF \
+         record offsets, CRAM containers, text lines). Files up to the `exhaustive` limit are cut at every offset 0..=len, larger \
+         ones within ±40 bytes of structural boundaries plus seeded random offsets. distinct = distinct (kind, driver, cut class, \
+         class of the position where the received stream ends, final element incl. error kind); non-trivial = all",
+    );
+    rep.assumptions.push("the stream a format reader can receive from a cut BGZF file = what the independent walker (miniz_oxide inflate, table CRC32) inflates from the complete members before the cut".into());
+    rep.assumptions.push("record / container / line boundaries come from walkers written from the format specifications (corpus::bounds), not from noodles".into());
+    rep.assumptions.push("text streams (SAM, VCF, FAI, FASTQ-FAI, gunzipped CRAI): a stream that ends inside a line may yield one extra element parsed from the partial line, a stream that ends inside the SAM/VCF header is only checked for shape — a text reader cannot tell a cut line from a short last line".into());
+    rep.assumptions.push("BAI/CSI/tabix: an index that differs from the original only by the optional trailing unplaced-unmapped count is accepted when at most those 8 bytes are missing".into());
+    rep.assumptions.push("virtual-position (V:) elements are not compared: the statement is about records and bytes".into());
+    let files = build_files(&ctx);
+    let cases = gen_cases(&ctx, &files);
+    if ctx.param("plan").is_some() {
+        let mut per_kind: BTreeMap<&str, (usize, usize, usize)> = BTreeMap::new();
+        for f in &files {
+            let e = per_kind.entry(f.item.kind.name()).or_default();
+            e.0 += 1;
+            e.1 += f.cuts.len();
+            e.2 += f.exhaustive as usize;
+        }
+        for (k, (n, c, e)) in &per_kind {
+            println!("{k}: {n} files, {c} cuts, {e} exhaustive");
+        }
+        println!("total: {} files, {} cuts, {} cases", files.len(), files.iter().map(|f| f.cuts.len()).sum::<usize>(), cases.len());
+        std::process::exit(0);
+    }
+    if let Some(spec) = ctx.param("show") {
+        // show=<item name>:<cut>[:<driver>] — print what one reading yields (diagnosis aid)
+        let mut it = spec.split(':');
+        let (name, cut) = (it.next().unwrap_or(""), it.next().and_then(|c| c.parse::<usize>().ok()).unwrap_or(0));
+        let drv_name = it.next().unwrap_or("");
+        for f in files.iter().filter(|f| f.item.name == name) {
+            let o = Oracle::new(&f.item);
+            for drv in drivers(f.item.kind).into_iter().filter(|d| drv_name.is_empty() || d.name() == drv_name) {
+                let c = cut.min(f.item.bytes.len());
+                println!("== {} (corpus seed {}, {} bytes) cut at {c}: class {}, stream {} of {} bytes, driver {}", f.item.name, f.seed, o.len, o.cut_class(c), o.stream_len(c, &f.item), o.stream.len(), drv.name());
+                let t = run_driver(&f.item, drv, &f.item.bytes).ok();
+                match run_driver(&f.item, drv, &f.item.bytes[..c]) {
+                    Err(p) => println!("   PANIC {}", p.sig),
+                    Ok(r) => {
+                        println!("   {} element(s), {} byte(s), final {} {:?}", r.elems.len(), r.bytes.as_ref().map(|b| b.len()).unwrap_or(0), r.fin, r.err_msg);
+                        for (i, e) in r.elems.iter().enumerate().rev().take(3).rev() {
+                            println!("   [{i}] {}", e.replace('\u{1f}', " ␟ "));
+                            if let Some(w) = t.as_ref().and_then(|t| t.elems.get(i)) {
+                                if w != e {
+                                    println!("   original [{i}] {}", w.replace('\u{1f}', " ␟ "));
+                                }
+                            }
+                        }
+                        if let Some(t) = &t {
+                            for (diag, desc) in judge(&o, &f.item, t, &r, c).violations {
+                                println!("   VIOLATION {diag}: {desc}");
+                            }
+                        }
+                    }
+                }
+            }
+        }
+        std::process::exit(0);
+    }
+    let f = |i: u64| -> CaseOut { run_case(&ctx, &files, &cases[i as usize]) };
+    run_cases(&ctx, &mut rep, cases.len() as u64, 120.0, &f, &|i| case_json(&files, &cases[i as usize]));
+    if ctx.replay.is_none() {
+        let exhaustive = files.iter().filter(|f| f.exhaustive).count();
+        rep.count("files", files.len() as u64);
+        rep.count("files_cut_at_every_offset", exhaustive as u64);
+        rep.count("files_cut_near_boundaries_and_at_random", (files.len() - exhaustive) as u64);
+        rep.exhaustive = Some(exhaustive == files.len());
+        rep.extra.insert(
+            "files".into(),
+            Value::Array(
+                files
+                    .iter()
+                    .map(|f| json!({"item": f.item.name, "corpus_seed": f.seed, "len": f.item.bytes.len(), "cuts": f.cuts.len(), "exhaustive": f.exhaustive}))
+                    .collect(),
+            ),
+        );
+        if ctx.param("only").is_none() && ctx.param("tiny").is_none() {
+            let snapshot = rep.counters.clone();
+            let get = |k: &str| snapshot.get(k).copied().unwrap_or(0);
+            let reduced = ctx.param("reduced").is_some();
+            let scale = if reduced { 10 } else { 1 };
+            rep.floor("cuts", get("cuts"), 30000 / scale);
+            rep.floor("cuts inside a BGZF member header", get("cuts_by_class[inside-bgzf-header]"), 2000 / scale);
+            rep.floor("cuts inside a BGZF member body", get("cuts_by_class[inside-bgzf-body]"), 2000 / scale);
+            rep.floor("record readers: streams ending inside a record", get("stream_end[bam/bcf][inside-record][ERR]") + get("stream_end[bam/bcf][inside-record][END]"), 3000 / scale);
+            rep.floor("CRAM: files ending inside a container", get("stream_end[cram][inside-container][ERR]") + get("stream_end[cram][inside-container][END]"), 1000 / scale);
+            rep.floor("index files cut", get("cuts[bai]") + get("cuts[csi]") + get("cuts[tbi]") + get("cuts[gzi]") + get("cuts[fai]") + get("cuts[fastqfai]") + get("cuts[crai]"), 2000 / scale);
+            for k in KINDS {
+                rep.floor(&format!("files of kind {}", k.name()), files.iter().filter(|f| f.item.kind == *k).count() as u64, 1);
+            }
+        }
+    }
+    rep.finish(&ctx);
 }
